@@ -53,6 +53,7 @@ def _history(draw, D0, R0, L):
     init.append({"what": "cond", "p": draw(gen.cond_params(ck, Rc, D0, Dy, kappa))})
     conds.append({"kind": ck, "R": Rc, "Dx": D0, "Dy": Dy})
     steps = []
+    last_f = None
     n = draw(st.integers(1, L))
     OPS = ["multiply", "multiply", "hadamard", "product", "slice", "normalize", "get_density", "get_marginal", "condition_on",
            "update", "linear_sum", "joint", "marginal_t", "conditional_t", "cond_x", "update_Sigma", "warm", "warm", "approx"]
@@ -69,7 +70,19 @@ def _history(draw, D0, R0, L):
             else:
                 R2 = draw(st.sampled_from([1, o["R"]]))
                 Rn = o["R"]
-            stp = {"op": op, "i": i, "fkind": fk, "f": draw(gen.factor_params(fk, R2, o["D"], kappa)), "update_full": draw(st.sampled_from([True, True, False]))}
+            mode = draw(st.sampled_from(["new"] * 4 + ["reuse"] * 3 + ["self"]))
+            if mode == "reuse" and last_f and last_f["D"] == o["D"] and (last_f["R2"] in (1, o["R"]) if op == "hadamard" else o["R"] * last_f["R2"] <= MAXR):
+                # the SAME factor object as in the previous product (a factor that remembers something about its first partner)
+                fk, R2, fpar = last_f["fkind"], last_f["R2"], last_f["f"]
+                Rn = o["R"] if op == "hadamard" else o["R"] * R2
+                stp = {"op": op, "i": i, "fkind": fk, "f": fpar, "update_full": draw(st.sampled_from([True, True, False])), "reuse": True}
+            elif mode == "self" and (op == "hadamard" or o["R"] * o["R"] <= MAXR):
+                # the measure multiplied with itself (one object on both sides)
+                Rn = o["R"] if op == "hadamard" else o["R"] * o["R"]
+                stp = {"op": op, "i": i, "fkind": "self", "f": None, "update_full": draw(st.sampled_from([True, True, False]))}
+            else:
+                stp = {"op": op, "i": i, "fkind": fk, "f": draw(gen.factor_params(fk, R2, o["D"], kappa)), "update_full": draw(st.sampled_from([True, True, False]))}
+                last_f = {"fkind": fk, "R2": R2, "f": stp["f"], "D": o["D"]}
             objs.append({"pdf": False, "R": Rn, "D": o["D"]})
         elif op == "product":
             stp = {"op": op, "i": i}
@@ -368,6 +381,7 @@ def _run(case):
         fails.extend(f2)
         return ra
 
+    prev_factor = []
     for n, stp in enumerate(case["steps"]):
       try:
         op = stp["op"]
@@ -377,11 +391,15 @@ def _run(case):
         inplace_positions.clear()
         if op in ("multiply", "hadamard"):
             m = objs[stp["i"]]
-            f = libx.make_factor(stp["fkind"], stp["f"])
             uf = stp["update_full"]
-            if stp["fkind"] in ("rank_one", "linear", "constant") and getattr(m, "Sigma", None) is not None and uf:
-                stats["fast_path"] += 1
-            r = produce(f"{op}[{stp['fkind']}]", lambda: getattr(m, op)(f, update_full=uf), lambda: getattr(_clone_measure(m), op)(libx.make_factor(stp["fkind"], stp["f"]), update_full=uf))
+            if stp["fkind"] == "self":
+                r = produce(f"{op}[self]", lambda: getattr(m, op)(m, update_full=uf), lambda: getattr(_clone_measure(m), op)(_clone_measure(m), update_full=uf))
+            else:
+                f = prev_factor[0] if (stp.get("reuse") and prev_factor) else libx.make_factor(stp["fkind"], stp["f"])
+                prev_factor[:] = [f]
+                if stp["fkind"] in ("rank_one", "linear", "constant") and getattr(m, "Sigma", None) is not None and uf:
+                    stats["fast_path"] += 1
+                r = produce(f"{op}[{stp['fkind']}]" + (".reused_factor" if stp.get("reuse") else ""), lambda: getattr(m, op)(f, update_full=uf), lambda: getattr(_clone_measure(m), op)(libx.make_factor(stp["fkind"], stp["f"]), update_full=uf))
             if r is not None:
                 objs.append(r)
                 stats["producing"] += 1
@@ -567,6 +585,7 @@ def _nontrivial(case):
 
 def _labels(case):
     out = [f"len={len(case['steps'])}"] + [f"op={t['op']}" for t in case["steps"]]
+    out += ["factor=self" for t in case["steps"] if t.get("fkind") == "self"] + ["factor=reused_object" for t in case["steps"] if t.get("reuse")]
     s = case.get("_stats")
     if s:
         out.append(f"fast_path={'yes' if s['fast_path'] else 'no'}")
